@@ -1493,6 +1493,12 @@ class RTCSctpTransport(AsyncIOEventEmitter):
             for stream_id in list(self._data_channels.keys()):
                 self._data_channel_closed(stream_id)
 
+            # close data channels which were still waiting for their stream id
+            queue, self._data_channel_queue = self._data_channel_queue, deque()
+            for channel, _, _ in queue:
+                if channel.readyState != "closed":
+                    channel._setReadyState("closed")
+
             # no more events will be emitted, so remove all event listeners
             # to facilitate garbage collection.
             self.remove_all_listeners()
